@@ -20,7 +20,7 @@ LANGS = CODE_LANGS + SCHEMA_LANGS
 OUTPUT_KINDS = ("types", "builders", "converters", "api_reference")
 JENNY_DIR = {"go": "golang", "python": "python", "java": "java", "typescript": "typescript", "php": "php",
              "jsonschema": "jsonschema", "openapi": "openapi"}
-SHORT = {"generate_json_marshaller": "marshal", "generate_strict_unmarshaller": "strict", "generate_equal": "equal",
+SHORT = {"alt_paths": "altpaths", "compact": "compact", "generate_json_marshaller": "marshal", "generate_strict_unmarshaller": "strict", "generate_equal": "equal",
          "generate_validate": "validate", "any_as_interface": "anyiface", "skip_runtime": "skiprt",
          "enums_as_union_types": "enumsunion", "types": "types", "builders": "builders", "converters": "converters",
          "api_reference": "apiref"}
@@ -147,16 +147,21 @@ def language_yaml(lang, on, langdir):
         "java": ("generate_json_marshaller", "skip_runtime"),
         "typescript": ("skip_runtime", "enums_as_union_types"),
         "php": ("generate_json_marshaller",),
-        "jsonschema": (), "openapi": (),
+        "jsonschema": ("compact",), "openapi": ("compact",),
     }[lang]
     y = "    - %s:\n" % lang
     body = ""
+    alt = "alt_paths" in on
     if lang == "go":
         body += "        package_root: '%s/%s'\n" % (sc.MODULE, langdir)
     elif lang == "java":
-        body += "        package_path: 'gen'\n"
+        body += "        package_path: '%s'\n" % ("com.example.gen" if alt else "gen")
     elif lang == "php":
-        body += "        namespace_root: 'Gen'\n"
+        body += "        namespace_root: '%s'\n" % ("Acme\\Gen" if alt else "Gen")
+    elif lang == "python" and alt:
+        body += "        path_prefix: 'pfx'\n"
+    elif lang == "typescript" and alt:
+        body += "        path_prefix: 'lib'\n        packages_import_map:\n          cog: '@acme/cog'\n"
     for k in from_spec:
         body += "        %s: %s\n" % (k, yaml_bool(k in on))
     if not body:
@@ -252,14 +257,32 @@ def run_sharded(ctx, command, jobs, cwd, nproc=NPROC, timeout=3600):
                              env=ctx.goenv(), cwd=cwd)
         procs.append((p, out, sh))
     res = {}
+    orphans = []
     for p, out, sh in procs:
         _, err = p.communicate(timeout=timeout)
-        recs = [json.loads(x) for x in open(out) if x.strip()]
-        if p.returncode != 0 or len(recs) != len(sh):
-            core.log(err.decode(errors="replace")[-3000:])
-            raise core.Inconclusive("worker %s failed (exit %s, %d/%d results)" % (command, p.returncode, len(recs), len(sh)))
+        recs = []
+        for x in open(out):
+            try:
+                recs.append(json.loads(x))
+            except ValueError:
+                pass
         for r in recs:
             res[r["id"]] = r
+        if p.returncode != 0 or len(recs) != len(sh):
+            # the worker died (a fatal error such as a stack overflow is not recoverable): the jobs without a record are run
+            # again one per process, so that the death is attributed to ONE job and never turns the run inconclusive
+            orphans += [j for j in sh if j["id"] not in res]
+    for j in orphans:
+        p = subprocess.run([ctx.worker, command], input=(json.dumps(j, separators=(",", ":")) + "\n").encode(), capture_output=True,
+                           env=ctx.goenv(), cwd=cwd, timeout=600)
+        try:
+            res[j["id"]] = json.loads(p.stdout.decode().strip().splitlines()[-1])
+        except (ValueError, IndexError):
+            tail = p.stderr.decode(errors="replace")
+            m = re.search(r"fatal error: (.*)", tail)
+            frames = [l.split("(")[0] for l in tail.splitlines() if l.startswith("github.com/grafana/cog/internal")][:6]
+            res[j["id"]] = {"id": j["id"], "ok": False, "ms": 0,
+                            "panic": "worker process died (exit %s): %s\n%s" % (p.returncode, m.group(1) if m else tail[-200:], "\n".join(frames))}
     return res
 
 
@@ -358,7 +381,11 @@ def _ty(t, names, types):
 
 def _blank(s, names, repl="PKG"):
     for n in sorted(names, key=len, reverse=True):
-        s = re.sub(r"(?<![A-Za-z0-9_])%s(?![A-Za-z0-9_])" % re.escape(n), repl, s)
+        if repl == "T":
+            # also what is derived from an object name: NewChild, RootEB (enum member of field e of Root), ChildBuilder
+            s = re.sub(r"(?<![A-Za-z0-9_])(?:New)?%s(?:[A-Z0-9][A-Za-z0-9]*)?(?![A-Za-z0-9_])" % re.escape(n), repl, s)
+        else:
+            s = re.sub(r"(?<![A-Za-z0-9_])%s(?![A-Za-z0-9_])" % re.escape(n), repl, s)
     return s
 
 
